@@ -42,6 +42,32 @@ def capture_torch_frames(cfg, N):
     return [[int(round(float(v))) for v in row] for row in fr], tuple(out.shape)
 
 
+LAYOUTS = ["contiguous", "contiguous", "every second sample of a longer tensor", "one channel of an interleaved stereo tensor",
+           "slice at an offset of a longer tensor"]
+
+
+def laid_out(torch, x, layout):
+    """A tensor holding x's values in the given memory layout; (tensor, backing array, pristine copy of the backing array)."""
+    n = len(x)
+    if layout == "every second sample of a longer tensor":
+        back = np.zeros(2 * n + 1, dtype=x.dtype) + x.dtype.type(7)
+        back[1 : 2 * n : 2] = x
+        t = torch.from_numpy(back)[1 : 2 * n : 2]
+    elif layout == "one channel of an interleaved stereo tensor":
+        back = np.full((n, 2), 7, dtype=x.dtype)
+        back[:, 1] = x
+        t = torch.from_numpy(back)[:, 1]
+    elif layout == "slice at an offset of a longer tensor":
+        back = np.full(n + 11, 7, dtype=x.dtype)
+        back[5 : 5 + n] = x
+        t = torch.from_numpy(back)[5 : 5 + n]
+    else:
+        back = x.copy()
+        t = torch.from_numpy(back)
+    assert t.shape == (n,)
+    return t, back, back.copy()
+
+
 def numeric(ctx):
     import torch
     from pydrobert.speech import compute, config, filters, post, pre
@@ -92,13 +118,17 @@ def numeric(ctx):
                 ctx.case(desc, nontrivial=ref.shape[0] > 0)
                 ctx.count("module:" + name)
                 ctx.count("len:" + ("<L/2+1" if N < Lv // 2 + 1 else "<L" if N < Lv else ">=L"))
+                # the signal may be any 1-D tensor: a view into a longer or multi-channel recording holds the same samples
+                layout = rng.choice(LAYOUTS)
+                desc["layout"] = layout
+                ctx.count("layout:" + layout)
                 try:
-                    xin = x.copy()
-                    got = m(torch.from_numpy(xin)).detach().numpy()
+                    tin, xin, xin0 = laid_out(torch, x, layout)
+                    got = m(tin).detach().numpy()
                 except Exception as e:  # noqa
                     bad.append(dict(desc, what="exception %s: %s" % (type(e).__name__, str(e)[:200])))
                     continue
-                if not np.array_equal(xin, x):
+                if not np.array_equal(xin, xin0):
                     bad.append(dict(desc, what="the module modified the signal tensor it was given"))
                     continue
                 if got.shape != ref.shape:
@@ -112,7 +142,7 @@ def numeric(ctx):
                     if not err <= tol:
                         bad.append(dict(desc, what="value", err=err, tol=tol))
                 if ms is not None:
-                    g2 = ms(torch.from_numpy(x)).detach().numpy()
+                    g2 = ms(laid_out(torch, x, layout)[0]).detach().numpy()
                     if g2.shape != got.shape or (got.size and not np.allclose(g2, got, rtol=1e-6, atol=1e-8)):
                         bad.append(dict(desc, what="TorchScript differs from eager"))
     # pre-emphasis, wrappers, SI wrapper
@@ -121,10 +151,11 @@ def numeric(ctx):
         N = rng.choice([0, 1, 2, 17, 400])
         x = nprng.randn(N)
         a = pre.Preemphasize(coeff).apply(x)
-        b = pst.PyTorchPreemphasize.from_preemphasize(pre.Preemphasize(coeff))(torch.from_numpy(x)).numpy()
+        layout = rng.choice(LAYOUTS)
+        b = pst.PyTorchPreemphasize.from_preemphasize(pre.Preemphasize(coeff))(laid_out(torch, x, layout)[0]).numpy()
         ctx.count("preemph")
         if a.shape != b.shape or not np.allclose(a, b, rtol=1e-12, atol=1e-12):
-            bad.append(dict(what="PyTorchPreemphasize differs", coeff=coeff, N=N))
+            bad.append(dict(what="PyTorchPreemphasize differs", coeff=coeff, N=N, layout=layout))
         feats = nprng.randn(rng.randint(3, 12), 6)
         glob = post.Standardize()
         glob.accumulate(nprng.randn(20, 6) * 3.0 + 1.5)
@@ -135,15 +166,18 @@ def numeric(ctx):
                 ra = pp.apply(pristine.copy())
                 # the tensor handed to the module shares memory with `given`: the module must leave it alone,
                 # and a second call (and the NumPy object evaluated afterwards) must give the same answer
-                given = pristine.copy()
-                t = torch.from_numpy(given)
+                # (every other case hands over a transposed view: the same matrix in column-major memory)
+                transposed = rng.random() < 0.5
+                given = np.ascontiguousarray(pristine.T) if transposed else pristine.copy()
+                t = torch.from_numpy(given).T if transposed else torch.from_numpy(given)
+                given = given.T if transposed else given
                 rb = w(t).numpy()
                 rb2 = w(t).numpy()
                 ra2 = pp.apply(given.copy())
                 ctx.count("postwrap")
                 pname = type(pp).__name__ + (" (global statistics)" if pp is glob else "")
                 if ra.shape != rb.shape or not np.allclose(ra, rb, rtol=1e-5, atol=1e-6):
-                    bad.append(dict(what="PyTorchPostProcessorWrapper differs", post=pname, dtype=str(np.dtype(fdt))))
+                    bad.append(dict(what="PyTorchPostProcessorWrapper differs", post=pname, dtype=str(np.dtype(fdt)), transposed_view=transposed))
                 elif not np.array_equal(given, pristine):
                     bad.append(dict(what="PyTorchPostProcessorWrapper modifies the tensor it is given", post=pname, dtype=str(np.dtype(fdt)),
                                     input=pristine.tolist(), input_after_call=given.tolist()))
@@ -157,13 +191,14 @@ def numeric(ctx):
         for dt in (np.float64, np.float32):
             x = (nprng.randn(rng.choice([0, 10, 300, 1000])) * rng.choice([1.0, 100.0]) + rng.choice([0.0, 0.0, 1e4])).astype(dt)
             ra = si.compute_full(x)
-            rb = w(torch.from_numpy(x)).numpy()
+            layout = rng.choice(LAYOUTS)
+            rb = w(laid_out(torch, x, layout)[0]).numpy()
             ctx.count("siwrap")
             # the wrapper hands the signal to the NumPy computer: in the signal's own precision the two agree to the last
             # few bits (a detour through a narrower type would show as ~1e-7 on float64 input)
             tol = 1e-12 if dt == np.float64 else 1e-6
             if ra.shape != rb.shape or rb.dtype != ra.dtype or not np.allclose(ra, rb, rtol=tol, atol=tol):
-                bad.append(dict(what="PyTorchSIFrameComputer differs from SIFrameComputer.compute_full", N=len(x), dtype=str(np.dtype(dt)),
+                bad.append(dict(what="PyTorchSIFrameComputer differs from SIFrameComputer.compute_full", N=len(x), dtype=str(np.dtype(dt)), layout=layout,
                                 max_abs_diff=(float(np.max(np.abs(ra - rb))) if ra.shape == rb.shape and ra.size else None),
                                 result_dtype=str(rb.dtype), expected_dtype=str(ra.dtype)))
     # pre-emphasis module in every compiled form, on a signal whose dtype differs from the one it was traced with:
